@@ -50,6 +50,12 @@ func (m *GroupsModifier) Apply(eng flows.Engine, env envs.Environment, sa flows.
 		log(events.NewErrorf("can't add blocked or stopped contacts to groups"))
 		return false
 	}
+	if contact.Status() == flows.ContactStatusArchived {
+		// archived contacts are removed from all groups by the re-evaluation that follows a modification, so
+		// adding them to a group would be reported as a change and then immediately undone
+		log(events.NewErrorf("can't add archived contacts to groups"))
+		return false
+	}
 
 	diff := make([]*flows.Group, 0, len(m.groups))
 
